@@ -13,18 +13,22 @@ package c10
 
 import (
 	"context"
+	"errors"
 	"fmt"
 	"os"
 	"runtime"
 	"runtime/debug"
+	"sort"
 	"strings"
 	"sync"
 	"sync/atomic"
 	"testing"
+	"time"
 
 	"github.com/tetratelabs/wazero"
 	"github.com/tetratelabs/wazero/api"
 	"github.com/tetratelabs/wazero/experimental"
+	"github.com/tetratelabs/wazero/sys"
 	"pgregory.net/rapid"
 
 	"verif/internal/evid"
@@ -53,17 +57,46 @@ const sectionName = "a" // module name in the name section of binary 0
 // the engine caches compiled code) differ from every other binary of the run: closing a
 // CompiledModule removes the engine's cache entry of that ID, which would otherwise
 // invalidate a second CompiledModule made from identical bytes (observed; outside C10).
-func guestBinary(named bool, variant, salt int) []byte {
+//
+// Every binary imports four functions of the host module "env" (instantiated in every runtime
+// under test) and exports one candidate start function per startSpec entry plus "wait" (calls
+// env.block). defStart != "" additionally exports that start function under the default start
+// name "_start".
+func guestBinary(named bool, variant, salt int, defStart string) []byte {
 	m := &wasmenc.Module{Mems: [][]byte{wasmenc.Limits(0, 1, false)}}
 	if salt > 0 {
 		m.Customs = []wasmenc.Custom{{Name: "salt", Data: []byte(fmt.Sprint(salt))}}
 	}
+	imp := map[string]uint32{
+		"close_self": m.ImportFunc("env", "close_self", []byte{wasmenc.I32}, nil),
+		"exit_only":  m.ImportFunc("env", "exit_only", []byte{wasmenc.I32}, nil),
+		"kill_b":     m.ImportFunc("env", "kill_b", []byte{wasmenc.I32}, nil),
+	}
+	block := m.ImportFunc("env", "block", nil, nil)
 	res := int32(42)
 	if variant > 0 {
 		res = int32(1000 + variant)
 	}
 	f := m.AddFunc(nil, []byte{wasmenc.I32}, nil, wasmenc.NewB().I32Const(res).Bytes())
 	m.ExportFunc("f", f)
+	m.ExportFunc("wait", m.AddFunc(nil, nil, nil, wasmenc.NewB().Call(block).Bytes()))
+	for _, name := range startNames {
+		sp := startSpec[name]
+		var body []byte
+		switch sp.kind {
+		case stOK:
+			body = wasmenc.NewB().Nop().Bytes()
+		case stTrap:
+			body = wasmenc.NewB().Unreachable().Bytes()
+		default:
+			body = wasmenc.NewB().I32Const(int32(sp.code)).Call(imp[sp.kind]).Bytes()
+		}
+		fi := m.AddFunc(nil, nil, nil, body)
+		m.ExportFunc(name, fi)
+		if name == defStart {
+			m.ExportFunc("_start", fi)
+		}
+	}
 	if variant > 0 {
 		var p []byte
 		for i := 0; i < variant%5; i++ {
@@ -79,9 +112,48 @@ func guestBinary(named bool, variant, salt int) []byte {
 }
 
 var (
-	binNamed = guestBinary(true, 0, 0)
-	binPlain = guestBinary(false, 0, 0)
+	binNamed = guestBinary(true, 0, 0, "")
+	binPlain = guestBinary(false, 0, 0, "")
 )
+
+// start functions: how a start function (ModuleConfig.WithStartFunctions, or "_start" by
+// default) ends.
+const (
+	stOK      = "ok"         // returns
+	stTrap    = "trap"       // unreachable
+	stSelf    = "close_self" // proc_exit-like: the host import closes the calling module with the code, then panics with sys.ExitError
+	stForeign = "exit_only"  // the host import panics with sys.ExitError(code) and closes nothing
+	stKillB   = "kill_b"     // the host import closes the module registered as "b" (if any) with the code, then panics with sys.ExitError
+)
+
+type startKind struct {
+	kind string
+	code uint32
+}
+
+var startSpec = map[string]startKind{
+	"s_ok": {stOK, 0}, "s_trap": {stTrap, 0},
+	"s_self0": {stSelf, 0}, "s_self3": {stSelf, 3},
+	"s_foreign0": {stForeign, 0}, "s_foreign5": {stForeign, 5},
+	"s_killb0": {stKillB, 0}, "s_killb4": {stKillB, 4},
+}
+
+var startNames = []string{"s_ok", "s_trap", "s_self0", "s_self3", "s_foreign0", "s_foreign5", "s_killb0", "s_killb4"}
+
+// context-done closes (kCallCtx, Op.Var): how the context of a call of export "wait" ends.
+const (
+	ctxCancelInFlight  = 0 // cancelled while the guest is inside the host function
+	ctxTimeoutInFlight = 1 // 1ms deadline passes while the guest is inside the host function
+	ctxCancelledBefore = 2 // already cancelled when Call is invoked
+	ctxExpiredBefore   = 3 // deadline already passed when Call is invoked
+)
+
+func ctxCode(v int) uint32 {
+	if v == ctxTimeoutInFlight || v == ctxExpiredBefore {
+		return sys.ExitCodeDeadlineExceeded
+	}
+	return sys.ExitCodeContextCanceled
+}
 
 func binOf(i int) []byte {
 	if i == 0 {
@@ -98,18 +170,20 @@ func binOf(i int) []byte {
 // operation (index into the program's global operation numbering) whose result was an
 // api.Module: inst, hostinst and lookup fill their slot.
 type Op struct {
-	K       string `json:"k"`
-	Name    string `json:"name,omitempty"`    // inst (with Set), lookup, hostinst, hostcompile
-	Set     bool   `json:"set,omitempty"`     // inst: ModuleConfig.WithName(Name) is applied
-	Bin     int    `json:"bin,omitempty"`     // inst: 0 = binary with name section "a", 1 = without
-	FromBin bool   `json:"frombin,omitempty"` // inst through Runtime.InstantiateWithConfig(bytes)
-	H       int    `json:"h,omitempty"`       // close, closec, isclosed, call: slot
-	Code    uint32 `json:"code,omitempty"`    // closec, rtclosec
-	Var     int    `json:"var,omitempty"`     // compile: binary variant (>0)
-	NoNotif bool   `json:"nonotif,omitempty"` // inst/hostinst: no CloseNotifier in the context
-	Y       int    `json:"y,omitempty"`       // concurrent: yield spec before the operation
-	Sync    int    `json:"sync,omitempty"`    // concurrent: rendezvous number (0 none)
-	ND      int    `json:"nd,omitempty"`      // inst/hostinst: delay spec inside the close notifier
+	K        string `json:"k"`
+	Name     string `json:"name,omitempty"`     // inst (with Set), lookup, hostinst, hostcompile
+	Set      bool   `json:"set,omitempty"`      // inst: ModuleConfig.WithName(Name) is applied
+	Bin      int    `json:"bin,omitempty"`      // inst: 0 = binary with name section "a", 1 = without
+	FromBin  bool   `json:"frombin,omitempty"`  // inst through Runtime.InstantiateWithConfig(bytes)
+	H        int    `json:"h,omitempty"`        // close, closec, isclosed, call: slot
+	Code     uint32 `json:"code,omitempty"`     // closec, rtclosec
+	Var      int    `json:"var,omitempty"`      // compile: binary variant (>0)
+	Start    string `json:"start,omitempty"`    // inst: name of the start function (startSpec); "" = none
+	DefStart bool   `json:"defstart,omitempty"` // inst+frombin+start: exported as "_start", ModuleConfig start functions left at the default
+	NoNotif  bool   `json:"nonotif,omitempty"`  // inst/hostinst: no CloseNotifier in the context
+	Y        int    `json:"y,omitempty"`        // concurrent: yield spec before the operation
+	Sync     int    `json:"sync,omitempty"`     // concurrent: rendezvous number (0 none)
+	ND       int    `json:"nd,omitempty"`       // inst/hostinst: delay spec inside the close notifier
 }
 
 const (
@@ -124,6 +198,7 @@ const (
 	kHostCompile = "hostcompile"
 	kRtClose     = "rtclose"
 	kRtCloseC    = "rtclosec"
+	kCallCtx     = "callctx" // call export "wait" with a context that ends (Var: how); needs WithCloseOnContextDone
 )
 
 func (o Op) String() string {
@@ -141,7 +216,15 @@ func (o Op) String() string {
 		if o.FromBin {
 			via = "InstantiateWithConfig"
 		}
-		return fmt.Sprintf("%s(bin:%s, %s) [effective name %q]", via, n, cfg, o.effName())
+		st := ""
+		if o.Start != "" {
+			sp := startSpec[o.Start]
+			st = fmt.Sprintf(" start:%s(%d)", sp.kind, sp.code)
+			if o.DefStart && o.FromBin {
+				st += " as _start"
+			}
+		}
+		return fmt.Sprintf("%s(bin:%s, %s%s) [effective name %q]", via, n, cfg, st, o.effName())
 	case kLookup:
 		return fmt.Sprintf("Runtime.Module(%q)", o.Name)
 	case kClose:
@@ -152,6 +235,9 @@ func (o Op) String() string {
 		return fmt.Sprintf("slot%d.IsClosed()", o.H)
 	case kCall:
 		return fmt.Sprintf("slot%d.ExportedFunction(f).Call()", o.H)
+	case kCallCtx:
+		how := []string{"cancelled in flight", "1ms timeout in flight", "already cancelled", "already expired"}[o.Var&3]
+		return fmt.Sprintf("slot%d.ExportedFunction(wait).Call(ctx %s)", o.H, how)
 	case kCompile:
 		return fmt.Sprintf("Runtime.CompileModule(variant %d)", o.Var)
 	case kHostInst:
@@ -287,15 +373,54 @@ type env struct {
 	engine   string
 	rt       wazero.Runtime
 	compiled [2]wazero.CompiledModule
+	cod      bool // RuntimeConfig.WithCloseOnContextDone(true)
 	mu       sync.Mutex
 	attempts map[int]*attempt
 	slots    []atomic.Value // modBox per op index
 }
 
-func newEnv(engine string, nops int) (*env, error) {
+type cancelKey struct{}
+
+func newEnv(engine string, nops int, closeOnDone bool) (*env, error) {
 	ctx := context.Background()
-	e := &env{ctx: ctx, engine: engine, attempts: map[int]*attempt{}, slots: make([]atomic.Value, nops)}
-	e.rt = wazero.NewRuntimeWithConfig(ctx, wz.Config(engine))
+	e := &env{ctx: ctx, engine: engine, cod: closeOnDone, attempts: map[int]*attempt{}, slots: make([]atomic.Value, nops)}
+	e.rt = wazero.NewRuntimeWithConfig(ctx, wz.Config(engine).WithCloseOnContextDone(closeOnDone))
+	rt := e.rt
+	_, err := rt.NewHostModuleBuilder("env").
+		NewFunctionBuilder().WithFunc(func(ctx context.Context, mod api.Module, code uint32) {
+		_ = mod.CloseWithExitCode(ctx, code)
+		panic(sys.NewExitError(code))
+	}).Export("close_self").
+		NewFunctionBuilder().WithFunc(func(ctx context.Context, mod api.Module, code uint32) {
+		panic(sys.NewExitError(code))
+	}).Export("exit_only").
+		NewFunctionBuilder().WithFunc(func(ctx context.Context, mod api.Module, code uint32) {
+		if b := rt.Module("b"); b != nil {
+			_ = b.CloseWithExitCode(ctx, code)
+		}
+		panic(sys.NewExitError(code))
+	}).Export("kill_b").
+		NewFunctionBuilder().WithFunc(func(ctx context.Context, mod api.Module) {
+		// ends the context of the running call (if the caller provided the means) and stays
+		// inside the host function until the runtime has closed the module because of it
+		if c, ok := ctx.Value(cancelKey{}).(context.CancelFunc); ok {
+			c()
+		}
+		if ctx.Done() == nil {
+			return
+		}
+		for i := 0; i < 200000 && !mod.IsClosed(); i++ {
+			if i < 2000 {
+				runtime.Gosched()
+			} else {
+				time.Sleep(10 * time.Microsecond)
+			}
+		}
+	}).Export("block").
+		Instantiate(ctx)
+	if err != nil {
+		return nil, fmt.Errorf("setup: env host module: %v", err)
+	}
 	for i := 0; i < 2; i++ {
 		c, err := e.rt.CompileModule(ctx, binOf(i))
 		if err != nil {
@@ -402,20 +527,37 @@ func (e *env) exec(idx int, o Op, raw *api.Module) (r Res) {
 			mod, err = e.rt.NewHostModuleBuilder(o.Name).NewFunctionBuilder().
 				WithFunc(func() uint32 { return 7 }).Export("hf").Instantiate(ictx)
 		} else {
-			cfg := wazero.NewModuleConfig().WithStartFunctions()
+			cfg := wazero.NewModuleConfig()
+			defStart := ""
+			switch {
+			case o.Start == "":
+				cfg = cfg.WithStartFunctions()
+			case o.FromBin && o.DefStart:
+				defStart = o.Start // exported as "_start": the default start function
+			default:
+				cfg = cfg.WithStartFunctions(o.Start)
+			}
 			if o.Set {
 				cfg = cfg.WithName(o.Name)
 			}
 			if o.FromBin {
-				mod, err = e.rt.InstantiateWithConfig(ictx, guestBinary(o.Bin == 0, 0, idx+1), cfg)
+				mod, err = e.rt.InstantiateWithConfig(ictx, guestBinary(o.Bin == 0, 0, idx+1, defStart), cfg)
 			} else {
 				mod, err = e.rt.InstantiateModule(ictx, e.compiled[o.Bin], cfg)
 			}
 		}
 		if err != nil {
 			r.Err = firstLine(err)
+			var ee *sys.ExitError
+			switch {
+			case errors.As(err, &ee):
+				r.Kind, r.Exit = wz.KExit, ee.ExitCode() // a start function ended with an exit
+			case strings.Contains(r.Err, "] function["):
+				r.Kind = kindStartFailed // a start function failed otherwise
+			}
 			if mod != nil {
-				r.Err += " [and a non-nil module was returned]"
+				// the module that was instantiated and closed again is returned with the error
+				a.mod.Store(modBox{mod})
 			}
 			return
 		}
@@ -478,7 +620,7 @@ func (e *env) exec(idx int, o Op, raw *api.Module) (r Res) {
 			r.Err = "ExportedFunction(f) returned nil"
 			return
 		}
-		res, out := wz.SafeCall(ctx, f)
+		res, out := safeCall(ctx, f)
 		r.Kind, r.Exit = out.Kind, out.Exit
 		if out.Kind == wz.KOK && len(res) == 1 {
 			r.Val = res[0]
@@ -486,8 +628,53 @@ func (e *env) exec(idx int, o Op, raw *api.Module) (r Res) {
 		if out.Kind != wz.KOK && out.Kind != wz.KExit {
 			r.Err = out.String()
 		}
+	case kCallCtx:
+		m := e.slot(o.H)
+		if m == nil || isHostHandle(m) || !e.cod {
+			r.Skip = true
+			return
+		}
+		if raw != nil {
+			*raw = m
+		}
+		f := m.ExportedFunction("wait")
+		if f == nil {
+			r.Err = "ExportedFunction(wait) returned nil"
+			return
+		}
+		var cctx context.Context
+		var cancel context.CancelFunc
+		switch o.Var & 3 {
+		case ctxCancelInFlight:
+			cctx, cancel = context.WithCancel(ctx)
+			cctx = context.WithValue(cctx, cancelKey{}, cancel)
+		case ctxTimeoutInFlight:
+			cctx, cancel = context.WithTimeout(ctx, time.Millisecond)
+		case ctxCancelledBefore:
+			cctx, cancel = context.WithCancel(ctx)
+			cancel()
+		default:
+			cctx, cancel = context.WithDeadline(ctx, time.Now().Add(-time.Second))
+		}
+		_, out := safeCall(cctx, f)
+		cancel()
+		r.Kind, r.Exit = out.Kind, out.Exit
+		if out.Kind != wz.KExit {
+			r.Err = "call with a done context returned " + out.String()
+		}
+		// the close that the context triggers is performed by a goroutine of the runtime and
+		// may finish unlinking after Call has returned: wait for the registry to settle
+		if n := m.Name(); n != "" {
+			for i := 0; i < 100000 && e.rt.Module(n) == m; i++ {
+				if i < 1000 {
+					runtime.Gosched()
+				} else {
+					time.Sleep(10 * time.Microsecond)
+				}
+			}
+		}
 	case kCompile:
-		c, err := e.rt.CompileModule(ctx, guestBinary(false, o.Var, 0))
+		c, err := e.rt.CompileModule(ctx, guestBinary(false, o.Var, 0, ""))
 		if err != nil {
 			r.Err = firstLine(err)
 		} else if c == nil {
@@ -515,6 +702,19 @@ func (e *env) exec(idx int, o Op, raw *api.Module) (r Res) {
 	return
 }
 
+const kindStartFailed = "start-failed"
+
+// safeCall is wz.SafeCall plus the innermost wazero frames of an escaping panic.
+func safeCall(ctx context.Context, f api.Function) (res []uint64, out wz.Outcome) {
+	defer func() {
+		if r := recover(); r != nil {
+			out = wz.Outcome{Kind: wz.KInternal, Detail: fmt.Sprintf("panic escaped Call: %v @ %s", r, wazeroFrames(string(debug.Stack()), 4))}
+		}
+	}()
+	r, err := f.Call(ctx)
+	return r, wz.Classify(err)
+}
+
 // isHostHandle: host module handles are a wrapper struct, guest handles a pointer.
 func isHostHandle(m api.Module) bool {
 	return strings.HasPrefix(fmt.Sprintf("%T", m), "wazero.hostModuleInstance")
@@ -535,7 +735,8 @@ type mInst struct {
 type seqModel struct {
 	rtClosed bool
 	rtCode   uint32
-	inst     map[int]*mInst // successful instantiations by id (= op index)
+	cod      bool           // runtime built WithCloseOnContextDone(true)
+	inst     map[int]*mInst // instantiations that were registered, by id (= op index); a start function may have closed them again
 	failed   map[int]bool   // failed instantiation attempts
 	owner    map[string]int // non-empty name -> id of the open owner
 	slot     map[int]int    // op index -> instance id held by the slot (absent = empty)
@@ -578,8 +779,39 @@ func (m *seqModel) step(idx int, o Op) (want Res) {
 		if name != "" {
 			m.owner[name] = idx
 		}
+		if sp, ok := startSpec[o.Start]; ok && o.K == kInst && sp.kind != stOK {
+			// The start function does not return normally. Whatever the reason, an
+			// instantiation that does not hand out a usable module leaves nothing open or
+			// registered: the instance is closed (by itself with its code, else with 0).
+			switch sp.kind {
+			case stSelf:
+				m.closeInst(idx, sp.code)
+			case stKillB:
+				if v, ok := m.owner["b"]; ok {
+					m.closeInst(v, sp.code)
+				}
+			}
+			m.closeInst(idx, 0)
+			if sp.kind == stTrap {
+				want.Err, want.Kind = "*", kindStartFailed
+				return
+			}
+			if sp.code != 0 { // the exit error is returned as it is
+				want.Err, want.Kind, want.Exit = "*", wz.KExit, sp.code
+				return
+			}
+			// exit code 0 is not an error: the (closed) module is returned
+		}
 		m.slot[idx] = idx
 		want.Inst = idx
+	case kCallCtx:
+		id, ok := m.slot[o.H]
+		if !ok || m.inst[id].host || !m.cod {
+			want.Skip = true
+			return
+		}
+		m.closeInst(id, ctxCode(o.Var))
+		want.Kind, want.Exit = wz.KExit, m.inst[id].code
 	case kLookup:
 		if id, ok := m.owner[o.Name]; ok && o.Name != "" && !m.rtClosed {
 			want.Inst = id
@@ -632,6 +864,9 @@ func sameRes(got, want Res) bool {
 		return false
 	}
 	if want.Err == "*" {
+		if want.Kind != "" && (got.Kind != want.Kind || got.Exit != want.Exit) {
+			return false
+		}
 		return got.Err != "" && !got.Skip
 	}
 	return got == want
@@ -689,6 +924,7 @@ func (m *seqModel) counters(e *env) string {
 type SeqCase struct {
 	Kind   string `json:"kind"` // "seq"
 	Engine string `json:"engine"`
+	COD    bool   `json:"close_on_context_done,omitempty"` // RuntimeConfig.WithCloseOnContextDone(true)
 	Ops    []Op   `json:"ops"`
 }
 
@@ -701,12 +937,14 @@ type seqRun struct {
 
 const maxSeqOps = 40
 
-func newSeqRun(engine string) (*seqRun, error) {
-	e, err := newEnv(engine, maxSeqOps+8)
+func newSeqRun(engine string, cod bool) (*seqRun, error) {
+	e, err := newEnv(engine, maxSeqOps+8, cod)
 	if err != nil {
 		return nil, err
 	}
-	return &seqRun{c: SeqCase{Kind: "seq", Engine: engine}, e: e, m: newSeqModel()}, nil
+	m := newSeqModel()
+	m.cod = cod
+	return &seqRun{c: SeqCase{Kind: "seq", Engine: engine, COD: cod}, e: e, m: m}, nil
 }
 
 // apply executes one more operation and returns a non-empty message on a violation.
@@ -745,7 +983,11 @@ func (s *seqRun) finish() string {
 	}
 	probe := func() string {
 		for _, id := range ids {
-			m := s.e.attemptOf(id).mod.Load().(modBox).m
+			b, ok := s.e.attemptOf(id).mod.Load().(modBox)
+			if !ok {
+				continue
+			}
+			m := b.m
 			if got, want := m.IsClosed(), !s.m.inst[id].open; got != want {
 				return fmt.Sprintf("at quiescence: instance #%d (name %q) IsClosed()=%v, model says %v", id, s.m.inst[id].name, got, want)
 			}
@@ -791,7 +1033,7 @@ func (s *seqRun) finish() string {
 // runSeqCase re-executes a recorded sequential program (used by replay and by the
 // known-finding probes).
 func runSeqCase(c SeqCase) string {
-	s, err := newSeqRun(c.Engine)
+	s, err := newSeqRun(c.Engine, c.COD)
 	if err != nil {
 		return err.Error()
 	}
@@ -863,11 +1105,15 @@ func genSeqOp(t *rapid.T, s *seqRun) Op {
 	nameFree := func(n string) bool { // may the registry entry of n be observed?
 		return !(exclDupTaint && m.tainted[n])
 	}
+	kinds := []string{
+		kInst, kInst, kInst, kInst, kInst, kLookup, kLookup, kLookup, kClose, kClose, kCloseC, kCloseC,
+		kIsClosed, kIsClosed, kCall, kCall, kCompile, kHostInst, kHostInst, kHostCompile, kRtClose, kRtCloseC,
+	}
+	if m.cod {
+		kinds = append(kinds, kCallCtx, kCallCtx, kCallCtx)
+	}
 	for try := 0; ; try++ {
-		k := rapid.SampledFrom([]string{
-			kInst, kInst, kInst, kInst, kInst, kLookup, kLookup, kLookup, kClose, kClose, kCloseC, kCloseC,
-			kIsClosed, kIsClosed, kCall, kCall, kCompile, kHostInst, kHostInst, kHostCompile, kRtClose, kRtCloseC,
-		}).Draw(t, "kind")
+		k := rapid.SampledFrom(kinds).Draw(t, "kind")
 		switch k {
 		case kInst:
 			o := Op{K: kInst, Bin: rapid.IntRange(0, 1).Draw(t, "bin")}
@@ -876,7 +1122,11 @@ func genSeqOp(t *rapid.T, s *seqRun) Op {
 			}
 			o.FromBin = rapid.IntRange(0, 4).Draw(t, "frombin") == 0
 			o.NoNotif = rapid.IntRange(0, 7).Draw(t, "nonotif") == 0
-			if !nameFree(o.effName()) {
+			if rapid.IntRange(0, 9).Draw(t, "with-start") >= 6 {
+				o.Start = rapid.SampledFrom(startNames).Draw(t, "start")
+				o.DefStart = o.FromBin && rapid.Bool().Draw(t, "as-_start")
+			}
+			if !nameFree(o.effName()) || (exclDupTaint && startSpec[o.Start].kind == stKillB && m.tainted["b"]) {
 				evid.Label("excluded-dup-taint", 1)
 				continue
 			}
@@ -899,7 +1149,7 @@ func genSeqOp(t *rapid.T, s *seqRun) Op {
 				continue
 			}
 			return o
-		case kClose, kCloseC, kIsClosed, kCall:
+		case kClose, kCloseC, kIsClosed, kCall, kCallCtx:
 			if len(held) == 0 {
 				if try > 8 {
 					return Op{K: kLookup, Name: ""}
@@ -910,8 +1160,11 @@ func genSeqOp(t *rapid.T, s *seqRun) Op {
 			if k == kCloseC {
 				o.Code = rapid.SampledFrom([]uint32{0, 1, 2, 3, 7, 255, 0xffffffff}).Draw(t, "code")
 			}
-			if k == kCall && m.inst[m.slot[o.H]].host {
+			if (k == kCall || k == kCallCtx) && m.inst[m.slot[o.H]].host {
 				continue
+			}
+			if k == kCallCtx {
+				o.Var = rapid.IntRange(0, 3).Draw(t, "context-end")
 			}
 			return o
 		case kCompile:
@@ -932,7 +1185,7 @@ func genSeqOp(t *rapid.T, s *seqRun) Op {
 
 func seqKey(c SeqCase) uint64 {
 	var sb strings.Builder
-	sb.WriteString(c.Engine)
+	fmt.Fprint(&sb, c.Engine, c.COD)
 	for _, o := range c.Ops {
 		fmt.Fprintf(&sb, "|%+v", o)
 	}
@@ -942,12 +1195,33 @@ func seqKey(c SeqCase) uint64 {
 // seqStats derives the non-triviality rule and labels from the executed program.
 func seqStats(s *seqRun) (nontrivial bool, labels []string) {
 	m := newSeqModel()
+	m.cod = s.c.COD
 	touched := map[string]bool{} // names that saw an instantiate or a close
-	var reinst, dupFail, afterClose, postCloseReq, hostPost bool
+	var reinst, dupFail, afterClose, postCloseReq, hostPost, ctxClose, ctxObserved bool
+	startKinds := map[string]bool{}
+	ctxClosed := map[int]bool{}
 	for i, o := range s.c.Ops {
+		switch o.K {
+		case kCallCtx:
+			if id, ok := m.slot[o.H]; ok && !m.inst[id].host && m.cod {
+				if m.inst[id].open {
+					ctxClose = true
+					ctxClosed[id] = true
+				} else if ctxClosed[id] {
+					ctxObserved = true
+				}
+			}
+		case kCall, kIsClosed:
+			if id, ok := m.slot[o.H]; ok && ctxClosed[id] {
+				ctxObserved = true
+			}
+		}
 		switch o.K {
 		case kInst, kHostInst:
 			n := o.effName()
+			if _, owned := m.owner[n]; !m.rtClosed && !(owned && n != "") && o.Start != "" {
+				startKinds[startSpec[o.Start].kind] = true
+			}
 			if n != "" && touched[n] {
 				reinst = true
 			}
@@ -970,9 +1244,12 @@ func seqStats(s *seqRun) (nontrivial bool, labels []string) {
 					hostPost = true
 				}
 			}
-		case kClose, kCloseC:
+		case kClose, kCloseC, kCallCtx:
 			if id, ok := m.slot[o.H]; ok && m.inst[id].open && m.inst[id].name != "" {
 				touched[m.inst[id].name] = true
+			}
+			if id, ok := m.slot[o.H]; ok && ctxClosed[id] && o.K != kCallCtx {
+				ctxObserved = true
 			}
 		case kRtClose, kRtCloseC:
 			if !m.rtClosed && len(m.inst) > 0 {
@@ -980,6 +1257,16 @@ func seqStats(s *seqRun) (nontrivial bool, labels []string) {
 			}
 		}
 		m.step(i, o)
+	}
+	for k := range startKinds {
+		labels = append(labels, "seq-start-function-"+k)
+	}
+	sort.Strings(labels)
+	if ctxClose {
+		labels = append(labels, "seq-closed-by-context-done")
+	}
+	if ctxObserved {
+		labels = append(labels, "seq-context-closed-instance-used-again")
 	}
 	nontrivial = reinst || (afterClose && postCloseReq)
 	if reinst {
@@ -1004,7 +1291,8 @@ func seqStats(s *seqRun) (nontrivial bool, labels []string) {
 func runSeq(t *rapid.T) {
 	probeKnown()
 	engine := rapid.SampledFrom(wz.Engines).Draw(t, "engine")
-	s, err := newSeqRun(engine)
+	cod := rapid.IntRange(0, 9).Draw(t, "close-on-context-done") < 3
+	s, err := newSeqRun(engine, cod)
 	if err != nil {
 		t.Fatalf("%v", err)
 	}
